@@ -875,6 +875,8 @@ def spec_call(self, name, e, st):
             v = v.val
         if isinstance(v, Arr):
             return v.data
+        if isinstance(v, SList) and len(v.elems.cs) == 1:
+            return v.elems.cs[0]          # the element array of a list of scalars
         return v
     if name == "isnone":
         v = self.ev(e.args[0], st, True)
@@ -1019,6 +1021,9 @@ def make_param(self, name, t, st):
         return alloc_obj(self, st, t, name)
     if isinstance(t, OptObjT):
         return Opt(z3.Bool(f"{name}.isnone"), alloc_obj(self, st, t.inner, name))
+    from .contract import TupleOf
+    if isinstance(t, TupleOf) and any(isinstance(x, (ObjT, OptObjT)) for x in t.items):
+        return Tup([make_param(self, f"{name}.{k}", x, st) for k, x in enumerate(t.items)])     # a tuple holding objects
     return t.fresh(name)
 
 
@@ -1491,6 +1496,50 @@ def havoc_heap(self, st, spec):
 
 
 Engine.havoc_heap = havoc_heap
+
+
+def heap_snapshot(self, st):
+    """field values of every heap object at a loop head (after the havoc of what the loop declares it modifies)"""
+    return ({oid: dict(o) for oid, o in st.heap.items()}, dict(st.env))
+
+
+def loop_frame_check(self, snap, st, spec, lab):
+    """soundness of the loop cut: the arbitrary-iteration state forgets only what LoopSpec.modifies names, so a body that changes any
+    other heap object would be verified against a stale heap.  Every object that existed at the head and is not covered by the loop's
+    modifies must come out of the body with the very same field values."""
+    if snap is None:
+        return
+    heap0, env0 = snap
+    names = [m for m in spec.modifies if m.split(".")[0] in env0 and isinstance(env0[m.split(".")[0]], (Ref, Opt))]
+    env_refs = {k: (v.val if isinstance(v, Opt) else v) for k, v in env0.items()}
+    allowed = modifies_set(self, names, env_refs, heap0) if names else set()
+    for oid, old in heap0.items():
+        new = st.heap.get(oid)
+        if new is None:
+            continue
+        for f, ov in old.items():
+            if f == "$cls" or (oid, "*") in allowed or (oid, f) in allowed:
+                continue
+            nv = new.get(f)
+            if nv is ov:
+                continue
+            same = False
+            if isinstance(ov, Ref) and isinstance(nv, Ref):
+                same = ov.oid == nv.oid
+            else:
+                co, cn = V.comps(ov) if not isinstance(ov, (PyConst, NoneV, Func)) else None, \
+                    V.comps(nv) if not isinstance(nv, (PyConst, NoneV, Func)) else None
+                if co is not None and cn is not None and len(co) == len(cn):
+                    same = all(a is b or (is_z3(a) and is_z3(b) and a.eq(b)) for a, b in zip(co, cn))
+                elif co is None and cn is None:
+                    same = repr(ov) == repr(nv)
+            if not same:
+                raise EngineError(f"loop {lab} changes field {f!r} of a {old['$cls']} object that its LoopSpec.modifies does not name "
+                                  f"(the loop head would keep a stale heap): add it to modifies")
+
+
+Engine.heap_snapshot = heap_snapshot
+Engine.loop_frame_check = loop_frame_check
 
 
 def method_generator_iter(self, node, st):
